@@ -27,7 +27,7 @@ RULE = (
     "sequences fingerprints for histories."
 )
 RULE += " " + (
-    "Also: records built from the caller's mutable containers (bytearray, lists) must not follow later changes of those containers; augmented assignment keeps object identity; an ImmutableRdataset does not follow its source."
+    "Also: records built from the caller's mutable containers (bytearray, lists) must not follow later changes of those containers; augmented assignment keeps object identity; an ImmutableRdataset does not follow its source. The to_generic() twin of every record compares equal."
 )
 ASSUMPTIONS = [
     "reference ordered-set + TTL model in this file (insertion order of survivors; TTL merged by union/intersection/update/add(ttl))",
